@@ -8,6 +8,7 @@ import (
 	"crypto/rsa"
 	"crypto/sha256"
 	"crypto/x509"
+	"encoding/pem"
 	"fmt"
 	"math/big"
 	"os"
@@ -187,6 +188,11 @@ func run(c *core.Ctx) {
 			zone = time.UTC
 		}
 		var usedSerials []*big.Int
+		var rootNotAfter time.Time
+		// a localkm manager value that outlives commands run by other processes on the same key directory: it is loaded
+		// at some point of the history and later used for wipeout commands only
+		llKM := a.KM == authority.LocalKM && !viaCLI && (hi/len(pairs))%3 == 2
+		llLoadAt := r.IntN(4)
 		ncmd := c.N(8, 12)
 		var cmds []string
 		for step := 0; step < ncmd; step++ {
@@ -203,12 +209,33 @@ func run(c *core.Ctx) {
 					}
 				}
 			}
+			if r.IntN(8) == 0 {
+				now = now.Add(time.Duration(5*365+r.IntN(15*365)) * day) // years later: still inside a 25-year root
+			}
+			if !rootNotAfter.IsZero() && !now.Before(rootNotAfter.Add(-2*day)) {
+				now = rootNotAfter.Add(-time.Duration(2+r.IntN(1500)) * day).In(zone) // timestamps stay inside the root's validity
+			}
+			pre := a.Observe()
+			if llKM && step == llLoadAt {
+				a.LongLivedKM = true
+				a.Context(&doubles.FCtl{}, authority.Opts{}) // the long-lived process starts now and loads the key directory
+				a.LongLivedKM = false
+			}
 			overwrite := r.IntN(3) == 0
-			// keep-going turns refusals to replace an object into silent skips, so without overwrite its outcome over
-			// existing objects is "nothing certified" by design; it is generated together with overwrite only
-			keepGoing := overwrite && r.IntN(3) == 0
+			// keep-going turns refusals to replace an object into silent skips: without overwrite a command over existing
+			// objects may legitimately certify nothing and still succeed. The creation clauses below are therefore applied
+			// to certificates that were actually created by the command (the stored bytes changed).
+			keepGoing := r.IntN(4) == 0
 			opts := authority.Opts{Overwrite: overwrite, KeepGoing: keepGoing}
 			before := certObjects(a)
+			existed := map[string]bool{}
+			for _, b := range before {
+				if blk, _ := pem.Decode(b); blk != nil {
+					existed[string(blk.Bytes)] = true
+				} else {
+					existed[string(b)] = true
+				}
+			}
 			x := r.IntN(10)
 			var kind string
 			var err error
@@ -238,18 +265,42 @@ func run(c *core.Ctx) {
 					st := a.Observe()
 					h.ep = epoch{active: true, names: map[string]bool{st.Root: true, st.Primary: true}, lastSerial: bc.SigningKeySerial, n: 0}
 					what := fmt.Sprintf("after %s at step %d", kind, step)
-					h.checkRoot(st.RootCert, now, what)
-					h.checkSigning(st.PrimaryCert, st.RootCert, now, bc.SigningKeySerial, what)
-					if bc.SigningKeyCommonName == "signingKeyCn" {
-						usedSerials = append(usedSerials, bc.SigningKeySerial)
+					// created by this command = not among the certificates stored before it
+					rootCreated := st.RootCert != nil && !existed[string(st.RootCert.Raw)]
+					signCreated := st.PrimaryCert != nil && !existed[string(st.PrimaryCert.Raw)]
+					if rootCreated {
+						h.checkRoot(st.RootCert, now, what)
+					}
+					if signCreated {
+						h.checkSigning(st.PrimaryCert, st.RootCert, now, bc.SigningKeySerial, what)
+					}
+					if (!rootCreated || !signCreated) && !keepGoing {
+						h.viol("bootstrap-succeeded-without-certifying", "%s: root created=%v signing certificate created=%v although keep-going was not given", what, rootCreated, signCreated)
+					}
+					if !rootCreated || !signCreated {
+						c.Count("commands-that-certified-nothing-under-keep-going", 1)
+					}
+					if st.PrimaryCert != nil {
+						if ser, ok := new(big.Int).SetString(st.PrimaryCert.Subject.SerialNumber, 10); ok {
+							h.ep.lastSerial = ser
+							if st.PrimaryCert.Subject.CommonName == "signingKeyCn" {
+								usedSerials = append(usedSerials, ser)
+							}
+						}
+					}
+					if st.RootCert != nil {
+						rootNotAfter = st.RootCert.NotAfter
 					}
 				}
 			case x < 8:
 				kind = "rotate"
 				skc := &rotate.SigningKeyContext{SigningKeyCommonName: "signingKeyCn", Now: now}
 				var want *big.Int
-				if h.ep.active && h.ep.lastSerial != nil {
-					want = new(big.Int).Add(h.ep.lastSerial, big.NewInt(1))
+				if h.ep.active && pre.PrimaryCert != nil {
+					// "one greater than its predecessor's": the predecessor is the certificate of the primary before the command
+					if ps, ok := new(big.Int).SetString(pre.PrimaryCert.Subject.SerialNumber, 10); ok {
+						want = new(big.Int).Add(ps, big.NewInt(1))
+					}
 				}
 				switch x := r.IntN(12); {
 				case x < 2:
@@ -268,7 +319,7 @@ func run(c *core.Ctx) {
 				if kind != "rotate(serial-override=existing)" && r.IntN(4) == 0 {
 					skc.SigningKeyCommonName = fmt.Sprintf("signer-%d", step)
 				}
-				prev := a.Observe()
+				prev := pre
 				if viaCLI {
 					args := []string{"rotate", "--timestamp", now.Format(time.RFC3339), "--signing_key_cn", skc.SigningKeyCommonName}
 					if skc.SigningKeySerial != nil {
@@ -290,6 +341,9 @@ func run(c *core.Ctx) {
 							h.viol("rotation-did-not-change-primary", "%s: primary still %q", what, st.Primary)
 						}
 						h.ep.names[st.Primary] = true
+						if st.PrimaryCert != nil && existed[string(st.PrimaryCert.Raw)] {
+							h.viol("rotation-succeeded-without-certifying", "%s: the new primary %q carries a certificate that was stored before the rotation", what, st.Primary)
+						}
 						h.checkSigning(st.PrimaryCert, st.RootCert, now, want, what)
 						if st.PrimaryCert != nil {
 							if s, ok := new(big.Int).SetString(st.PrimaryCert.Subject.SerialNumber, 10); ok {
@@ -320,6 +374,9 @@ func run(c *core.Ctx) {
 				if pst := a.Observe(); pst.Err == "" {
 					known = append(known, pst.Root, pst.Primary)
 				}
+				if llKM {
+					a.LongLivedKM = true // this command is run by the long-lived manager value
+				}
 				if viaCLI {
 					args := []string{"wipeout"}
 					if !wkeys {
@@ -330,6 +387,10 @@ func run(c *core.Ctx) {
 					err = a.CLI(append(args, flags(opts)...)...)
 				} else {
 					err = a.Wipeout(f, opts, wca, wkeys)
+				}
+				if llKM {
+					a.LongLivedKM = false
+					c.Count("wipeouts-run-by-a-long-lived-key-manager-value", 1)
 				}
 				c.Eval(1)
 				if err == nil {
